@@ -57,7 +57,7 @@ def c_script(kind, states): return '(c_script %s %s)' % (kind, lst(states))
 def m_script(outs): return '(m_script %s)' % lst('MPass' if o is None else '(MSet %s)' % o for o in outs)
 PROBE = '(m_script [])'          # identity modifier that records the raw read
 KINDS = ['KExplicit', 'KImplicit', '(KBlocker false)', '(KBlocker true)']
-CTX_PRIO = [30, 20, -10, 0, 10, -20, 15, 5]
+CTX_PRIO = [30, 20, -10, 0, 10, -2 ** 63, 2 ** 63 - 1, 5]
 def ctx_shared(c): return c % 2 == 1
 
 # ---- well-formedness of a scenario text (used to reject shrink candidates that stop making sense) ----
